@@ -1,7 +1,9 @@
 #!/usr/bin/env python3
 """dev helper: seed_test.py PATCH PROP [PROP...] — apply a seeded change to /repo, run the checks, revert."""
+import shutil
 import subprocess
 import sys
+import tempfile
 
 patch = sys.argv[1]
 props = sys.argv[2:]
@@ -9,6 +11,8 @@ r = subprocess.run(["git", "-C", "/repo", "apply", patch], capture_output=True, 
 if r.returncode != 0:
     print("patch does not apply:", r.stderr[:500])
     sys.exit(3)
+bak = tempfile.mkdtemp(prefix="vp_ev_")
+shutil.copytree("/verif/evidence", bak + "/evidence")
 try:
     for p in props:
         q = subprocess.run(["python3", "/verif/vp/check.py", p], capture_output=True, text=True, cwd="/verif")
@@ -17,3 +21,5 @@ try:
         print("exit", q.returncode)
 finally:
     subprocess.run(["git", "-C", "/repo", "checkout", "--", "."])
+    # evidence written while a seeded change was applied is not evidence about /repo: restore
+    shutil.rmtree("/verif/evidence"); shutil.copytree(bak + "/evidence", "/verif/evidence"); shutil.rmtree(bak)
